@@ -2,7 +2,7 @@
 import re
 
 from .. import rettags as RT
-from ..analysis import strip_through, Branches, Origins, edge_dominates, fmt_terms, reach_avoiding
+from ..analysis import strip_through, Branches, Origins, blocks_separate, edge_dominates, fmt_terms, reach_avoiding
 from ..build import read_manifests
 from ..interp import DATA, Interp
 from ..serde_tables import VAR, casts_in, f64_mapping_ok, int_entry_ok, number_from_calls
@@ -228,10 +228,19 @@ def check_serialize(ctx, lib):
     ctx.floor(rule, n, 6, "Serialize arms")
     d = ctx.fn("<variable::Variable as std::fmt::Display>::fmt", rule=rule)
     if d is not None:
-        o2 = Origins(d, lib)
-        ts = [t for _, t in d.calls() if t["callee"] == "serde_json::to_string"]
-        ok = len(ts) == 1 and o2.of_operand(ts[0]["args"][0]) == {P1}
-        ctx.check(ok, rule, "display", "printing a value is serde_json::to_string(self)", d.span)
+        ctx.check(display_is_json(d, lib), rule, "display", "printing a value is serde_json::to_string(self) on every path: nothing is "
+                  "written, and the function does not return, without having been through it", d.span)
+
+
+def display_is_json(d, lib):
+    """Display::fmt for the value type: one serde_json::to_string(self) call, and every return of the function lies after it
+    (so no kind of value is printed any other way)."""
+    o2 = Origins(d, lib)
+    ts = [(blk, t) for blk, t in d.calls() if t["callee"] == "serde_json::to_string"]
+    if len(ts) != 1 or o2.of_operand(ts[0][1]["args"][0]) != {P1}:
+        return False
+    rets = [i for i in sorted(d.reachable()) if d.blocks[i]["term"]["k"] == "return"]
+    return bool(rets) and all(blocks_separate(d, {ts[0][0]}, r) for r in rets)
 
 
 def check_tryfrom(ctx, lib):
